@@ -134,3 +134,102 @@ def pow_fraction(a, num, den, us, d):
         return raises(lambda: u ** e)
     r = u ** e
     return dims(r) == tuple((x * num) // den for x in d)
+
+
+# ------------------------------------------------------------------------------- modulo and arrays
+def mod_law(pairing, a, b, usa, usb, d):
+    """% : SI value of the result = (SI of a) mod (SI of b) with Python's sign convention (sign of the divisor)."""
+    ua, ub = uv(a, usa, d), uv(b, usb, d)
+    if pairing == "vv":
+        r, x, m = ua % ub, si(ua), si(ub)
+    elif pairing == "vn":
+        r, x, m = ua % b, si(ua), b * si_factor(ua.units.sys, ua.units.dim)
+    else:
+        r, x, m = a % ub, a * si_factor(ub.units.sys, ub.units.dim), si(ub)
+    got = si(r)
+    # r = x - m*floor(x/m): same sign as m (or zero), |r| < |m|, and x - r is a multiple of m
+    if not (abs(got) <= abs(m) * (1 + 1e-9)):
+        return False
+    if got != 0 and (got > 0) != (m > 0) and abs(got) > 1e-9 * abs(m):
+        return False
+    q = (x - got) / m
+    return abs(q - round(q)) <= 1e-6 and dims(r) == tuple(d)
+
+
+LAT = [-1.75, -0.5, 0.0, 0.75, 2.5]     # value lattice for numpy-resident payloads / modulo
+
+
+def _arr(vals, us, d):
+    return UnitArray(list(vals), Units(SYS[us], UnitsDimensions(*d)))
+
+
+def array_op(op, pairing, ia, ib, ic, usa, usb, d):
+    """UnitArray operators agree element-wise with the scalar UnitValue operators (whose SI law is proved symbolically).
+    pairing: av (array op value), va, aa, an (array op number), na. Values from the lattice LAT (indices symbolic)."""
+    import operator as O
+    f = {"add": O.add, "sub": O.sub, "mul": O.mul, "div": O.truediv, "mod": O.mod}[op]
+    xs = [LAT[ia], LAT[(ia + ib) % len(LAT)]]
+    y = LAT[ic]
+    if op in ("div", "mod") and (y == 0 or (pairing in ("va", "na") and 0 in xs)):
+        return True
+    db = d if op in ("add", "sub", "mod") else (1, 0, -1)
+    if pairing == "av":
+        r = f(_arr(xs, usa, d), uv(y, usb, db))
+        ref = [f(uv(x, usa, d), uv(y, usb, db)) for x in xs]
+    elif pairing == "va":
+        r = f(uv(y, usb, db), _arr(xs, usa, d))
+        ref = [f(uv(y, usb, db), uv(x, usa, d)) for x in xs]
+    elif pairing == "aa":
+        ys = [y, LAT[(ic + 3) % len(LAT)]]
+        if op in ("div", "mod") and 0 in ys:
+            return True
+        r = f(_arr(xs, usa, d), _arr(ys, usb, db))
+        ref = [f(uv(x, usa, d), uv(yy, usb, db)) for x, yy in zip(xs, ys)]
+    elif pairing == "an":
+        r = f(_arr(xs, usa, d), y)
+        ref = [f(uv(x, usa, d), y) for x in xs]
+    else:
+        r = f(y, _arr(xs, usa, d))
+        ref = [f(y, uv(x, usa, d)) for x in xs]
+    if type(r) != UnitArray or len(r) != len(ref):
+        return False
+    for k, e in enumerate(ref):
+        g = r.get_at(k)
+        if dims(g) != dims(e):
+            return False
+        if abs(si(g) - si(e)) > 1e-9 * (abs(si(e)) + abs(si(g))) + 1e-300:
+            return False
+    return True
+
+
+def mod_lattice(pairing, ia, ib, usa, usb, d):
+    a, b = LAT[ia], LAT[ib]
+    if b == 0:
+        return True
+    return mod_law(pairing, a, b, usa, usb, d)
+
+
+def array_unary(ia, ib, us, d):
+    xs = [LAT[ia], LAT[ib]]
+    a = _arr(xs, us, d)
+    n, p, ab = -a, +a, abs(a)
+    return all(n.value[k] == -xs[k] and p.value[k] == xs[k] and ab.value[k] == abs(xs[k]) for k in range(2)) and n.units == a.units and ab.units == a.units
+
+
+def array_length_mismatch(op, n1, n2):
+    import operator as O
+    f = {"add": O.add, "sub": O.sub, "mul": O.mul, "div": O.truediv, "mod": O.mod}[op]
+    a = _arr([1.0 + k for k in range(n1)], "A", (1, 0, 0))
+    b = _arr([2.0 + k for k in range(n2)], "B", (1, 0, 0))
+    if n1 == n2:
+        return not raises(lambda: f(a, b))
+    return raises(lambda: f(a, b))
+
+
+def array_dim_mismatch(op, s, t, q):
+    import operator as O
+    f = {"add": O.add, "sub": O.sub, "mod": O.mod}[op]
+    a = _arr([1.0, 2.0], "A", (1, 0, 0))
+    b = _arr([1.0, 2.0], "B", (s, t, q))
+    v = uv(1.5, "B", (s, t, q))
+    return raises(lambda: f(a, b)) and raises(lambda: f(a, v)) and raises(lambda: f(v, a))
